@@ -42,13 +42,20 @@ Definition queues_ok (sg : segment) (sps : list (N * N)) (qs : queues) : Prop :=
      slice_bin (slice_count (get (entries sg) i)) = b) /\
   (queued sg = false -> forall b, q_get qs b = []).
 
+(* a huge segment consists of the info span and one page *)
+Definition huge_shape (sg : segment) (sps : list (N * N)) : Prop :=
+  match kind sg with
+  | SegHuge => exists c, sps = [(0, info_slices sg); (info_slices sg, c)]
+  | SegNormal => True
+  end.
+
 (* U stands for `used` (kept as a parameter: mi_segment_page_clear decrements `used` after the span operations) *)
 Definition span_Inv_with (U : N) (st : state) (sps : list (N * N)) (m : N) : Prop :=
   let sg := fst st in let qs := snd st in
   let es := entries sg in let n := slice_entries sg in
   tiles 0 m sps /\ n <= m /\ Forall (first_ok es n) sps /\
   Forall (span_ok sg qs) sps /\
-  (exists r, sps = (0, info_slices sg) :: r) /\ 0 < bsz (get es 0) /\
+  (exists r, sps = (0, info_slices sg) :: r) /\ huge_shape sg sps /\ 0 < bsz (get es 0) /\
   U + 1 = count_used es sps /\
   len es = n + 1 /\ n <= MI_SLICES_PER_SEGMENT /\
   queues_ok sg sps qs.
@@ -230,13 +237,18 @@ Theorem span_inv_b_spec st : span_inv_b st = true <-> span_Inv st.
 Proof.
   destruct st as [sg qs]. unfold span_inv_b, span_Inv, span_Inv_with. cbn [fst snd]. cbv zeta. split.
   - destruct (spans_of sg) as [sps|] eqn:Es; [|discriminate].
-    rewrite !andb_true_iff. intros [[[[[[[[H1 H2] H3] H6] H7] H8] H9] H10] H11].
+    rewrite !andb_true_iff. intros [[[[[[[[[H1 H2] Hh] H3] H6] H7] H8] H9] H10] H11].
     destruct (spans_of_sound _ _ Es) as (m & Ht & Hm & Hf).
     exists sps, m.
     split; [exact Ht|]. split; [exact Hm|]. split; [exact Hf|].
     split. { apply Forall_forall. intros sp Hin. apply span_ok_b_spec. rewrite forallb_forall in H1. apply H1; assumption. }
     split. { destruct sps as [|[i c] r]; [discriminate|]. apply andb_prop in H2 as [Ha Hb].
              apply N.eqb_eq in Ha, Hb. subst. exists r. reflexivity. }
+    split. { unfold huge_shape. destruct (kind sg) eqn:Ek; [exact I|].
+             assert (Ekh : kind_is_huge sg = true) by (apply kind_is_huge_true; assumption).
+             rewrite Ekh in Hh. cbn [negb orb] in Hh.
+             destruct sps as [|[i0 c0] [|[i1 c1] [|x t]]]; try discriminate.
+             apply andb_prop in H2 as [Ha Hb]. apply N.eqb_eq in Ha, Hb, Hh. subst. exists c1. reflexivity. }
     split. { apply N.ltb_lt in H3. exact H3. }
     split. { apply N.eqb_eq in H6. exact H6. }
     split. { apply N.eqb_eq in H7. exact H7. }
@@ -247,12 +259,16 @@ Proof.
     split. { intros b i Hin. destruct (proj1 (queues_ok_b_spec _ _ _ 0) H10 b) as [_ H]. destruct (H i Hin) as (Ha & Hb & Hc).
              split; [assumption|]. split; [assumption|]. rewrite Hc. reflexivity. }
     intros Hq. apply orb_true_iff in H11 as [H|H]; [congruence|]. apply all_nil_spec. assumption.
-  - intros (sps & m & Ht & Hm & Hf & Hok & (r & Er) & Hb0 & Hu & Hl & Hn & (Q1 & Q2 & Q3 & Q4)).
+  - intros (sps & m & Ht & Hm & Hf & Hok & (r & Er) & Hhs & Hb0 & Hu & Hl & Hn & (Q1 & Q2 & Q3 & Q4)).
     rewrite (spans_of_complete sg sps m Ht Hm Hf Hl).
     rewrite !andb_true_iff.
-    split; [split; [split; [split; [split; [split; [split; [split|]|]|]|]|]|]|].
+    split; [split; [split; [split; [split; [split; [split; [split; [split|]|]|]|]|]|]|]|].
     + apply forallb_forall. intros sp Hin. apply span_ok_b_spec. rewrite Forall_forall in Hok. apply Hok; assumption.
     + subst sps. rewrite !N.eqb_refl. reflexivity.
+    + unfold huge_shape in Hhs. destruct (kind sg) eqn:Ek.
+      * assert (Ekh : kind_is_huge sg = false) by (apply kind_is_huge_false; assumption). rewrite Ekh. reflexivity.
+      * assert (Ekh : kind_is_huge sg = true) by (apply kind_is_huge_true; assumption). rewrite Ekh.
+        destruct Hhs as (c & ->). cbn. apply N.eqb_refl.
     + apply N.ltb_lt. exact Hb0.
     + apply N.eqb_eq. exact Hu.
     + apply N.eqb_eq. exact Hl.
